@@ -14,6 +14,12 @@ Workload (harness-written PDE forms, recording solvers, recording observation ma
             array edited by the caller; inputs must stay untouched, arrays handed out earlier must not change
   dtype     (axis of steady/time) int / bool / float32 / python-list initial conditions, sources, right-hand sides,
             integer parameters, integer time grids and space grids - the oracles hold in float64
+  order     (axis of the observation grids/times) all solution nodes permuted or reversed, permuted subsets, repeated nodes,
+            permuted / repeated observation times: expected is the solution at the points in the order given; the ValueError
+            of the bivariate spline for unsorted points is an accepted refusal, a returned value is judged
+  layout    parameters / solutions handed over read-only, as non-contiguous views or Fortran-ordered; grids read-only; every
+            array argument must be unchanged after assemble/solve/observe; a second PDE object of another configuration is
+            built before or after the one under test and used in between (shared class-level state shows up in either)
   misc      spelling of `method`, grids that are too short to interpolate
 Monitors: recording PDE_form (which (p, t) were assembled, in which order), recording linear solver (the system it
   was handed, the kwargs, what it returned), recording observation map (what it was handed).
@@ -50,13 +56,13 @@ REQUIRED_COUNTERS = {
               "model_forward_compared": 280, "model_gradient_compared": 40, "info_passthrough_checked": 170,
               "assembly_schedule_checked": 130, "refusal_observed": 25, "history_forward_compared": 180,
               "input_unchanged_checked": 220, "nonfloat_variant_levels_checked": 900, "nonfloat_variant_steady_checked": 60,
-              "same_length_offnode_discriminating": 90, "near_final_time_discriminating": 12},
+              "same_length_offnode_discriminating": 90, "near_final_time_discriminating": 10, "second_object_interleaved": 100},
     "thorough": {"steady_residual_checked": 1700, "euler_levels_checked": 25000, "be_solver_systems_checked": 18000,
                  "observation_compared": 4000, "coinciding_points_checked": 80000, "polynomial_reproduction_checked": 2800,
                  "model_forward_compared": 4500, "model_gradient_compared": 600, "info_passthrough_checked": 3400,
                  "assembly_schedule_checked": 2500, "refusal_observed": 500, "history_forward_compared": 1400,
                  "input_unchanged_checked": 1800, "nonfloat_variant_levels_checked": 18000, "nonfloat_variant_steady_checked": 1200,
-                 "same_length_offnode_discriminating": 1500, "near_final_time_discriminating": 230},
+                 "same_length_offnode_discriminating": 1500, "near_final_time_discriminating": 200, "second_object_interleaved": 1800},
 }
 BUDGET_S = {"quick": 240.0, "thorough": 1500.0}
 
@@ -68,12 +74,16 @@ TIME_FORMS = ("ic_par", "src_par", "op_par")
 TIME_FMTS = ("dense", "csr", "npmatrix")
 METHODS = ("forward_euler", "backward_euler")
 TGRIDS = ("uniform", "nonuniform", "two_phase", "short")
-GRIDS = ("none", "sol_only", "equal_copy", "subset", "offnode", "offnode_samelen", "mixed", "near_far", "near_tiny")
+GRIDS = ("none", "sol_only", "equal_copy", "subset", "offnode", "offnode_samelen", "mixed", "near_far", "near_tiny",
+         "perm_full", "reversed", "repeated", "subset_perm")
+# perm_full / reversed : all solution nodes in another order (sensor numbering); repeated : same length, some nodes twice
+# (sorted); subset_perm : some nodes in another order.  Expected: the solution at the observation nodes IN THE ORDER GIVEN.
+UNSORTED_GRIDS = ("perm_full", "reversed", "subset_perm")
 # near_far : same length as grid_sol, nodes shifted by 1e-3..0.4 of a spacing on a grid with coordinates ~1e3..1e4 and
 #            spacing 1e-2..1e-1;  near_tiny : same length, unit-scale grid, shifts ~1e-6 of the coordinate (some nodes kept)
-STEADY_GRIDS = GRIDS + ("subset_perm",)
+STEADY_GRIDS = GRIDS
 TOBS = ("final", "Final", "all", "explicit_final", "on_nodes", "single_mid_node", "off_nodes", "mixed", "list_on_nodes", "ALL",
-        "near_final", "near_nodes")      # times a tiny relative amount away from stored times, on a time grid at t ~ 1e3..1e4
+        "near_final", "near_nodes", "on_nodes_perm", "repeated_times")      # times a tiny relative amount away from stored times, on a time grid at t ~ 1e3..1e4
 MAPS = ("none", "square", "matrix", "pick")
 HIST = ("fresh", "reassemble", "regrid_obs", "regrid_sol")
 # representation of what the user's PDE form / grids / parameter hand to the library (values are the same numbers)
@@ -151,7 +161,8 @@ def cases(tier, seed):
                     for inp in ("ndarray", "cuqiarray", "funvals", "keyword", "samples"):
                         for jac in ("jacobian", "gradient", "both", "neither")[: 4 if inp == "ndarray" else 1]:
                             c = {"kind": "model", "pde": pde, "form": form, "geom": geom, "input": inp, "jac": jac,
-                                 "grid": rg.choice(("none", "sol_only", "subset", "offnode", "mixed", "near_far", "near_far", "near_tiny")), "map": rg.choice(MAPS[:3]), "rep": rep}
+                                 "grid": rg.choice(("none", "sol_only", "subset", "offnode", "mixed", "near_far", "near_far", "near_tiny", "repeated") +
+                                                   (("perm_full", "reversed", "subset_perm") if pde == "steady" else ())), "map": rg.choice(MAPS[:3]), "rep": rep}
                             if pde == "time":
                                 c.update({"method": rg.choice(METHODS), "tgrid": rg.choice(("uniform", "nonuniform", "two_phase")),
                                           "tobs": rg.choice(("final", "final", "all", "on_nodes", "off_nodes", "explicit_final", "near_final"))})
@@ -165,7 +176,7 @@ def cases(tier, seed):
                         if scen == "settings_method" and pde == "steady":
                             continue
                         c = {"kind": "history", "pde": pde, "form": form, "geom": geom, "scenario": scen, "input": "ndarray", "jac": "jacobian",
-                             "grid": rg.choice(("sol_only", "subset", "offnode", "mixed", "equal_copy", "near_far")), "map": rg.choice(MAPS[:3]), "rep": rep}
+                             "grid": rg.choice(("sol_only", "subset", "offnode", "mixed", "equal_copy", "near_far") + (("perm_full", "reversed") if pde == "steady" else ())), "map": rg.choice(MAPS[:3]), "rep": rep}
                         if pde == "time":
                             c.update({"method": rg.choice(METHODS), "tgrid": rg.choice(("uniform", "nonuniform", "two_phase")),
                                       "tobs": rg.choice(("final", "final", "explicit_final", "single_mid_node", "all", "off_nodes"))})
@@ -310,11 +321,23 @@ def _mk_obs_grid(rs, x, kind):
         return None
     if kind == "equal_copy":
         return x.copy()
+    if kind in ("perm_full", "reversed"):
+        idx = np.arange(n)[::-1] if kind == "reversed" else rs.permutation(n)
+        if np.array_equal(idx, np.arange(n)):
+            idx = idx[::-1]
+        return np.asarray(x)[idx].copy()
+    if kind == "repeated":
+        idx = np.sort(rs.choice(n, n, replace=True))
+        if len(set(idx.tolist())) == n:
+            idx[1] = idx[0]
+        return np.asarray(x)[idx].copy()
     if kind in ("subset", "subset_perm"):
-        k = int(rs.randint(1, n))
+        k = int(rs.randint(1 if kind == "subset" else 2, n))
         idx = np.sort(rs.choice(n, k, replace=False))
         if kind == "subset_perm":
             idx = rs.permutation(idx)
+            if np.all(np.diff(idx) > 0):
+                idx = idx[::-1]
         return x[idx].copy()
     if kind == "offnode":
         k = int(rs.randint(1, n + 4))
@@ -376,6 +399,15 @@ def _mk_time_obs(rs, ts, kind):
         return kind, ts.copy()
     if kind == "explicit_final":
         return np.array([ts[-1]]), ts[-1:].copy()
+    if kind in ("on_nodes_perm", "repeated_times"):
+        k = int(rs.randint(2, max(3, nt)))
+        idx = np.sort(rs.choice(nt, min(k, nt), replace=False))
+        if kind == "on_nodes_perm":
+            idx = idx[::-1] if rs.rand() < 0.5 or len(idx) == 2 else np.roll(idx, 1)
+        else:
+            idx = np.sort(np.concatenate([idx, idx[:1]]))
+        v = np.asarray(ts)[idx].copy()
+        return v, v.copy()
     if kind == "near_final":       # just before the final time (relative distance 1e-9..1e-5 at large t, or a fraction of dt)
         tf = np.asarray(ts, dtype=float)
         dt = tf[-1] - tf[-2]
@@ -494,6 +526,43 @@ def _time_problem(rs, form, n, symmetric):
                     np.cos(om * t) * s0, np.tanh(p[:n]) + p[n] * s1 + (t * 7.0) * w)
         return f, (lambda: rs.standard_normal(n + 1)), n + 1
     raise ValueError(form)
+
+
+# --------------------------------------------------------------------------- hostile array layouts
+def rs_of(ctx):
+    """Private stream for layout choices (does not disturb the case's main stream)."""
+    if not hasattr(ctx, "_c18_layout_rs"):
+        ctx._c18_layout_rs = core.np_rng(ctx.seed, PROPERTY, "layout", core.canon(ctx.case))
+    return ctx._c18_layout_rs
+
+
+def _hostile(rs, a):
+    """Same values, awkward representation: read-only, non-contiguous view of a larger buffer, Fortran order."""
+    if not isinstance(a, np.ndarray) or a.ndim == 0:
+        return a
+    k = int(rs.randint(0, 4))
+    if k == 0:
+        out = a
+    elif k == 1:
+        out = np.array(a, copy=True)
+    elif k == 2 and a.ndim == 1:
+        buf = np.zeros(2 * a.size + 1, dtype=a.dtype)
+        buf[1::2] = a
+        out = buf[1::2]
+    else:
+        out = np.asfortranarray(np.array(a, copy=True)) if a.ndim > 1 else np.array(a[::-1], copy=True)[::-1]
+    if k != 0:
+        out.setflags(write=False)
+    return out
+
+
+def _unchanged(ctx, pairs, cfg, by):
+    for name, (obj, snap) in pairs.items():
+        if obj is None:
+            continue
+        ctx.count("input_unchanged_checked")
+        if not np.array_equal(np.asarray(obj), snap):
+            ctx.violation("input_mutated", {**cfg, "by": by, "what": name}, detail=f"{by} changed the caller's {name} in place")
 
 
 # --------------------------------------------------------------------------- dtype / container variants
@@ -741,19 +810,46 @@ def _judge_steady_observation(ctx, S, u, obs, cfg, x=None, grid_obs="_unset"):
 
 def _run_steady(case, ctx, rs):
     cfg = _cfg(case)
+    lrs = rs_of(ctx)
+    # a second PDE object of another configuration, built before or after the one under test and used in between
+    D, dcase = None, None
+    if lrs.rand() < 0.5:
+        dcase = {**case, "solver": "tuple3", "grid": "offnode", "map": "square", "dtype": "float", "fmt": "dense", "hist": "fresh",
+                 "form": STEADY_FORMS[(STEADY_FORMS.index(case["form"]) + 1) % len(STEADY_FORMS)]}
+        if lrs.rand() < 0.5:
+            D = _build_steady_pde(ctx, lrs, dcase)
     S = _build_steady_pde(ctx, rs, case)
+    if dcase is not None and D is None:
+        D = _build_steady_pde(ctx, lrs, dcase)
     pde = S["pde"]
     hist = case["hist"]
     p = S["sampler"]()
+    p_lib = _hostile(lrs, p)
+    for g in (S["x"], S["grid_obs"]):
+        if isinstance(g, np.ndarray):
+            g.setflags(write=False)
+    watch = {"parameter": (p_lib, np.array(p, copy=True)),
+             "grid_sol": (S["x"], None if S["x"] is None else np.array(S["x"], copy=True)),
+             "grid_obs": (S["grid_obs"], None if S["grid_obs"] is None else np.array(S["grid_obs"], copy=True))}
     if hist == "reassemble":
         p_old = S["sampler"]()
         pde.assemble(p_old)
         pde.solve()
         if rs.rand() < 0.5:
             pde.observe(pde.solve()[0])
-    pde.assemble(p)
+    if D is not None:
+        pd = D["sampler"]()
+        D["pde"].assemble(pd)
+    pde.assemble(p_lib)
+    if D is not None:
+        ud, infod = D["pde"].solve()
+        ctx.count("second_object_interleaved")
+        ud = _judge_steady_solution(ctx, D, pd, ud, infod, {**_cfg(dcase), "object": "second"})
+        if ud is not None:
+            _judge_steady_observation(ctx, D, ud, D["pde"].observe(ud), {**_cfg(dcase), "object": "second"})
     n_before = len(S["solver"].calls)
     u, info = pde.solve()
+    _unchanged(ctx, watch, cfg, "assemble/solve")
     if len(S["solver"].calls) - n_before != 1:
         ctx.violation("solver_call_count", cfg, detail=f"one solve() made {len(S['solver'].calls) - n_before} solver calls")
     if case.get("dtype", "float") != "float":
@@ -782,7 +878,12 @@ def _run_steady(case, ctx, rs):
         pde.grid_sol = x2
         x = S["x"] = x2
         cfg = {**cfg, "regrid": "sol"}
-    kind, obs = core.outcome(pde.observe, u)
+    uh = _hostile(lrs, u)
+    watch = {"solution": (uh, np.array(u, copy=True)), "parameter": watch["parameter"],
+             "grid_sol": (S["x"], None if S["x"] is None else np.array(S["x"], copy=True)),
+             "grid_obs": (S["grid_obs"], None if S["grid_obs"] is None else np.array(S["grid_obs"], copy=True))}
+    kind, obs = core.outcome(pde.observe, uh)
+    _unchanged(ctx, watch, cfg, "observe")
     if kind != "value":
         if kind == "refused":
             ctx.refused("steady_observe", obs); ctx.count("refusal_observed")
@@ -958,8 +1059,20 @@ def _observe_time_classified(ctx, S, U, cfg):
     pde = S["pde"]
     needs_interp = not (len(S["tobs"]) == 1 and S["tobs"][0] == S["ts"][-1] and
                         (S["x"] is None or S["grid_obs"] is None or np.array_equal(S["x"], S["grid_obs"])))
-    kind, obs = core.outcome(pde.observe, U)
+    unsorted = (S["grid_obs"] is not None and np.any(np.diff(np.asarray(S["grid_obs"], dtype=float)) < 0)) or \
+        np.any(np.diff(np.asarray(S["tobs"], dtype=float)) < 0)
+    Uh = _hostile(rs_of(ctx), U)
+    snap = np.array(Uh, copy=True)
+    kind, obs = core.outcome(pde.observe, Uh)
+    ctx.count("input_unchanged_checked")
+    if not np.array_equal(Uh, snap):
+        ctx.violation("input_mutated", {**cfg, "by": "observe"}, detail="observe() changed the solution array it was given")
+    if kind == "refused" and unsorted and needs_interp and isinstance(obs, ValueError):
+        ctx.refused("observe_unsorted_points", obs); ctx.count("refusal_observed")
+        return None
     if kind == "value":
+        if unsorted:
+            ctx.count("unsorted_observation_value_judged")
         if S["x"] is None and needs_interp:
             ctx.count("unjudged_value_without_grid")
             return None
@@ -981,17 +1094,48 @@ def _observe_time_classified(ctx, S, U, cfg):
 
 def _run_time(case, ctx, rs):
     cfg = _cfg(case)
+    lrs = rs_of(ctx)
+    D, dcase = None, None
+    if lrs.rand() < 0.5:
+        dcase = {**case, "solver": "tuple3", "grid": "offnode", "map": "square", "dtype": "float", "fmt": "dense", "hist": "fresh",
+                 "tobs": "all", "tgrid": "nonuniform", "form": TIME_FORMS[(TIME_FORMS.index(case["form"]) + 1) % len(TIME_FORMS)],
+                 "method": {"forward_euler": "backward_euler", "backward_euler": "forward_euler"}[case["method"]]}
+        if lrs.rand() < 0.5:
+            D = _build_time_pde(ctx, lrs, dcase)
     S = _build_time_pde(ctx, rs, case)
+    if dcase is not None and D is None:
+        D = _build_time_pde(ctx, lrs, dcase)
     pde, hist = S["pde"], case["hist"]
     p = S["sampler"]()
+    p_lib = _hostile(lrs, p)
+    for g in (S["x"], S["grid_obs"]):
+        if isinstance(g, np.ndarray):
+            g.setflags(write=False)
+    watch = {"parameter": (p_lib, np.array(p, copy=True)),
+             "grid_sol": (S["x"], None if S["x"] is None else np.array(S["x"], copy=True)),
+             "grid_obs": (S["grid_obs"], None if S["grid_obs"] is None else np.array(S["grid_obs"], copy=True)),
+             "time_steps": (pde.time_steps, np.array(S["ts"], copy=True))}
     if hist in ("reassemble", "switch_method"):
         pde.assemble(S["sampler"]())
         pde.solve()
     if hist == "switch_method":
         pde.method = case["method"]      # constructed with the other method, one solve done with it
-    pde.assemble(p)
+    if D is not None:
+        pd = D["sampler"]()
+        D["pde"].assemble(pd)
+    pde.assemble(p_lib)
+    if D is not None:
+        df0, ds0 = len(D["rec_form"].calls), len(D["solver"].calls)
+        Ud, infod = D["pde"].solve()
+        ctx.count("second_object_interleaved")
+        Ud = _judge_time_solution(ctx, D, pd, Ud, infod, {**_cfg(dcase), "object": "second"}, D["rec_form"].calls[df0:], D["solver"].calls[ds0:])
+        if Ud is not None:
+            od = _observe_time_classified(ctx, D, Ud, {**_cfg(dcase), "object": "second"})
+            if od is not None:
+                _judge_time_observation(ctx, D, Ud, od, {**_cfg(dcase), "object": "second"})
     f0, s0 = len(S["rec_form"].calls), len(S["solver"].calls)
     U, info = pde.solve()
+    _unchanged(ctx, watch, cfg, "assemble/solve")
     fc, sc_ = S["rec_form"].calls[f0:], S["solver"].calls[s0:]
     if S["method"] == "forward_euler":
         ctx.count("fe_info_observed")
